@@ -7,11 +7,26 @@ use num_bigint::BigUint;
 use crate::{
     types::{CircuitValue, IrType, IrValue},
     utils::F,
-    Error,
+    Error, Operation,
 };
 
+/// The type `BigUint(0)` has no bit to hold a value, it cannot be loaded
+/// (neither off-circuit nor in-circuit).
+fn check_loadable(t: IrType) -> Result<(), Error> {
+    if t == IrType::BigUint(0) {
+        return Err(Error::Unsupported(Operation::Load(t), vec![]));
+    }
+    Ok(())
+}
+
 /// A sanity check, making sure that the given values are of the given type.
+///
+/// # Error
+///
+/// This function returns an error if one of the provided values is not of the
+/// declared type `t`, or if `t` is `BigUint(0)`.
 pub fn load_offcircuit(t: IrType, values: &[IrValue]) -> Result<Vec<IrValue>, Error> {
+    check_loadable(t)?;
     values.iter().try_for_each(|v| v.check_type(t))?;
     Ok(values.to_vec())
 }
@@ -23,7 +38,7 @@ pub fn load_offcircuit(t: IrType, values: &[IrValue]) -> Result<Vec<IrValue>, Er
 /// # Error
 ///
 /// This function returns an error if one of the provided values is not of the
-/// declared type `t`.
+/// declared type `t`, or if `t` is `BigUint(0)`.
 pub fn load_incircuit(
     std_lib: &ZkStdLib,
     layouter: &mut impl Layouter<F>,
@@ -38,6 +53,8 @@ pub fn load_incircuit(
             .map(|v| v.as_ref().map_with_result(|x| x.clone().try_into()))
             .collect()
     }
+
+    check_loadable(t)?;
 
     match t {
         IrType::Bool => std_lib
